@@ -8,7 +8,7 @@
 (* the replay: it is recorded in `vBad` with a cause tag, the state is      *)
 (* re-synchronised from the logged outcome and validation goes on.         *)
 (***************************************************************************)
-EXTENDS Find, Format, TzString, TzFile, Json, IOUtils, TLC
+EXTENDS Find, Format, TzString, TzFile, Resolve, Json, IOUtils, TLC
 
 Rec == ndJsonDeserialize(IOEnv.TRACE)
 NRec == Len(Rec)
@@ -156,8 +156,13 @@ VTzif(e) ==
        ELSE IF Has(e.r, "err") THEN (IF Has(dd, "open") THEN {} ELSE {"C08-well-formed-file-refused"})
        ELSE IF e.r.ok = dd.zone THEN {} ELSE {"C08-decoded-zone-differs"}
 
+\* ---- C20 ----
+VResolve(e) == IF Has(e.r, "panic") THEN {"panic"} ELSE IF Has(e.r, "arg") THEN {"generator-error"}
+               ELSE ResolveTags(e.a.s, e.a.dirs, e.a.vfs, e.r)
+
 Verdict(e) ==
   CASE e.op = "gmtime" -> VGmtime(e)
+    [] e.op = "resolve" -> VResolve(e)
     [] e.op = "tzif" -> VTzif(e)
     [] e.op = "tzstring" -> VTzString(e)
     [] e.op = "render" -> VRender(e)
@@ -186,6 +191,11 @@ Step(e) ==
      /\ vZone' = IF accepted THEN z ELSE UtcZone            \* re-synchronised from the logged outcome
      /\ vInfo' = vInfo \cup {<<vL, t>> : t \in ZoneInfo(z)}
      /\ vBuf' = EmptyBuf
+  ELSE IF e.op = "resolve" THEN
+     /\ vBad' = vBad \cup {<<vL, t>> : t \in Verdict(e)}
+     /\ vZone' = IF Has(e.r, "ok") THEN MkZone(e.r.ok.zone) ELSE vZone
+     /\ vInfo' = vInfo
+     /\ vBuf' = vBuf
   ELSE IF e.op = "tzif" THEN
      /\ vBad' = vBad \cup {<<vL, t>> : t \in Verdict(e)}
      /\ vZone' = IF Has(e.r, "ok") THEN MkZone(e.r.ok) ELSE UtcZone     \* the zone as decoded by the crate (judged by VTzif)
